@@ -718,7 +718,9 @@ def out_params_written(ctx, rel, rule, min_funcs=1):
             g = CFG(f, lambda st: isinstance(st, ast.Raise))
             writers = {nd.id for nd in g.nodes if nd.kind == "stmt" and stores(nd.ast)}
             path = g.path(g.entry.id, g.exit.id, blocked=writers)
-            ctx.ob(rule, rel, q, f"*{p} written on every path to a return", path is None,
+            # the pointer itself must stay the caller's: once the name is bound to another address the stores go there
+            rebound = [x for x in ast.walk(f) if isinstance(x, ast.Name) and x.id == p and isinstance(x.ctx, (ast.Store, ast.Del))]
+            ctx.ob(rule, rel, q, f"*{p} written on every path to a return", path is None and not rebound,
                    f"a return is reachable without `{p}[0] = ..`: the caller's variable keeps its previous content (e.g. the score of the other "
                    "direction is counted twice)", f.lineno)
     ctx.floor(f"{rule}:{rel}", n, min_funcs)
@@ -926,6 +928,17 @@ def constructors_leave_arguments(ctx, rel, rule, min_classes=1):
             continue
         n += 1
         bad = {p: w for p, w in muts.get(q, {}).items() if p not in ("self", "cls")}
+        # a container argument that is kept as the object's own store and then written through the object's item interface
+        # (`self._columns = columns` .. `self[key] = col`: the class's __setitem__ writes into what `_columns` is) is the caller's object
+        from .effects import params_kept_by_identity
+        kept = {p: w for p, w in params_kept_by_identity(f).items() if p not in ("self", "cls")}
+        me = f.args.args[0].arg if f.args.args else "self"
+        through = [x for x in ast.walk(f) if isinstance(x, ast.Subscript) and isinstance(x.ctx, (ast.Store, ast.Del)) and isinstance(x.value, ast.Name) and x.value.id == me
+                   or isinstance(x, ast.Call) and isinstance(x.func, ast.Attribute) and isinstance(x.func.value, ast.Name) and x.func.value.id == me
+                   and x.func.attr in ("update", "setdefault", "pop", "popitem", "clear", "__setitem__", "__delitem__")]
+        if kept and through:
+            for p_, w_ in kept.items():
+                bad.setdefault(p_, [(through[0].lineno, f"kept as it is ({w_[0][1]}) and written through `{ast.unparse(through[0])[:40]}`")])
         first = next(iter(bad.items()), None)
         ctx.ob(rule, rel, q, "arguments changed in place: " + (", ".join(sorted(bad)) or "none"), not bad,
                (f"the constructor changes its caller's `{first[0]}` in place ({first[1][0][1]} at line {first[1][0][0]}): the caller's object and "
@@ -1526,4 +1539,36 @@ def equality_covers_state(ctx, rel, rule, classes, exempt=None):
         ctx.ob(rule, rel, f"{cls}.__eq__", f"state {state}; compared {sorted(covered)}", not missing,
                f"{cls}.__eq__ never requires the two objects to agree on {missing}: objects that differ there compare equal", eq.lineno)
     ctx.floor("value-classes-with-equality", n, len(classes))
+    return n
+
+
+def enum_members_distinct(ctx, rel, rule, min_classes=1):
+    """the members of an enumeration the rules and the code compare against are pairwise different values: a member assigned from another
+    member (`REVERSE = FORWARD`) is an alias of it, two equal literals are one member, and `auto()` next to explicit numbers continues from the
+    previous value and may land on a later literal"""
+    s = ctx.src(rel)
+    n = 0
+    for cnode in ast.walk(s.tree):
+        if not isinstance(cnode, ast.ClassDef) or not any(("Enum" in ast.unparse(b) or "Flag" in ast.unparse(b)) for b in cnode.bases):
+            continue
+        members = [(st.targets[0].id, st.value, st) for st in cnode.body if isinstance(st, ast.Assign) and len(st.targets) == 1
+                   and isinstance(st.targets[0], ast.Name) and not st.targets[0].id.startswith("_")]
+        if not members:
+            continue
+        n += 1
+        names = {m_[0] for m_ in members}
+        alias = [m_[0] for m_ in members if any(isinstance(x, ast.Name) and x.id in names and x.id != m_[0] for x in ast.walk(m_[1]))
+                 and not isinstance(m_[1], ast.BinOp)]        # (FLAG_A | FLAG_B: a combination is a member of its own)
+        lits = [ast.literal_eval(m_[1]) for m_ in members if isinstance(m_[1], ast.Constant)]
+        dup = sorted({repr(v) for v in lits if lits.count(v) > 1})
+        autos = [m_[0] for m_ in members if isinstance(m_[1], ast.Call) and (call_name(m_[1]) or "").split(".")[-1] == "auto"]
+        # (explicit numbers in FRONT of the first auto() are safe - `NONE = 0` of a Flag: auto() counts on from them; one BEHIND an auto() may
+        # repeat what auto() has given)
+        first_auto = next((k_ for k_, m_ in enumerate(members) if m_[0] in autos), len(members))
+        mixed = any(isinstance(m_[1], ast.Constant) and isinstance(m_[1].value, int) for m_ in members[first_auto:])
+        bad = ([f"{alias} alias other members"] if alias else []) + ([f"the value(s) {dup} are given twice"] if dup else []) + \
+            ([f"auto() ({autos}) next to explicit numbers"] if mixed else [])
+        ctx.ob(rule, rel, cnode.name, f"{len(members)} members, pairwise different", not bad,
+               "; ".join(bad) + ": two names for one member - every test for the one is true for the other", cnode.lineno)
+    ctx.floor(f"{rule}:{rel}", n, min_classes)
     return n
